@@ -306,6 +306,9 @@ var c34ConcActs = map[string]c34ConcAct{
 	"pubPburst": {func(e *c34ConcEnv) { // the last queued packet is refused (larger than a's Maximum Packet Size)
 		e.p.SendRaw(c34Segment(4, pub("x/a", "m1", 0, 0), pub("x/b", c34Payload("L", "m2"), 0, 0)))
 	}, []c34Msg{{"m1", 0, false}, {"m2", 0, true}}},
+	"pubPburstQ1": {func(e *c34ConcEnv) { // as pubPburst, but the refused last packet is a QoS 1 PUBLISH (no drop report is owed; the buffered m1 still must be flushed)
+		e.p.SendRaw(c34Segment(4, pub("x/a", "m1", 0, 0), pub("x/b", c34Payload("L", "m2"), 1, 12)))
+	}, []c34Msg{{"m1", 0, false}, {"m2", 1, true}}},
 	"pubQ1": {func(e *c34ConcEnv) { e.q.Send(pub("x/q", "q1", 0, 0)) }, []c34Msg{{"q1", 0, false}}},
 	// a's own connection goroutine writes directly
 	"pingA": {func(e *c34ConcEnv) { e.a.Send(ref.Packet{Type: ref.PINGREQ}) }, nil},
@@ -464,10 +467,10 @@ func init() {
 			arg string
 			pb  int
 		}
-		conc := []cs{{"pubP2+pingA;wb=64,pend=8", 2}, {"pubP2+pingA;wb=8,pend=8", 2}, {"pubPburst+pingA;wb=64,pend=8,mps=48", 2}, {"pubP2+pubA1;wb=8,pend=8", 1}, {"pubP2+subA;wb=64,pend=2", 1}}
+		conc := []cs{{"pubP2+pingA;wb=64,pend=8", 2}, {"pubP2+pingA;wb=8,pend=8", 2}, {"pubPburst+pingA;wb=64,pend=8,mps=48", 2}, {"pubPburstQ1+pingA;wb=64,pend=8,mps=48", 2}, {"pubP2+pubA1;wb=8,pend=8", 1}, {"pubP2+subA;wb=64,pend=2", 1}}
 		cper := 7 * time.Second
 		if !c.Quick() {
-			conc = []cs{{"pubP2+pingA;wb=64,pend=8", 3}, {"pubP2+pingA;wb=8,pend=8", 3}, {"pubPburst+pingA;wb=64,pend=8,mps=48", 3}, {"pubP2+pubA1;wb=8,pend=8", 2}, {"pubP2+subA;wb=64,pend=2", 2},
+			conc = []cs{{"pubP2+pingA;wb=64,pend=8", 3}, {"pubP2+pingA;wb=8,pend=8", 3}, {"pubPburst+pingA;wb=64,pend=8,mps=48", 3}, {"pubPburstQ1+pingA;wb=64,pend=8,mps=48", 3}, {"pubP2+pubA1;wb=8,pend=8", 2}, {"pubP2+subA;wb=64,pend=2", 2},
 				{"pubP3+ping2A;wb=8,pend=8", 2}, {"pubP3+ping2A;wb=64,pend=2", 2}, {"pubP2q1+pingA;wb=64,pend=8", 2}, {"pubP2q1+pubA1;wb=64,pend=8", 2}, {"pubP2+pubQ1+pingA;wb=8,pend=8", 2}, {"pubP2+pubQ1+pingA;wb=64,pend=1", 2},
 				{"pubPburst+pubA1;wb=8,pend=8,mps=48", 2}, {"pubPburst+subA;wb=64,pend=8,mps=48", 2}, {"pubP2+pubA2;wb=8,pend=2", 3}, {"pubP2+unsubA;wb=64,pend=8", 3}, {"pubP1+pubQ1+subA;wb=8,pend=1", 2}}
 			cper = 20 * time.Second
